@@ -75,6 +75,13 @@ def systematic(fam, profile):
                                p(mid)]))
         out.append(("live", [("fit_other", 1, "weighted"), ("use_other", 0, 0), p(small), ("df", ("O", ix(fam, P + small)), 1),
                              ("mutate", "H", 1, 2), p(small)]))
+    if fam == "Hourly" and profile == "suppcat":
+        f1, f2 = ("predict", ix(fam, "H.rep_1weekb_flag")), ("predict", ix(fam, "H.rep_1month_flag"))
+        out.append(("fitted", [f1, f2, f1, ("to_json",), ("reload",), f2, f1]))
+        out.append(("live", [f2, ("fit_other", 0, "default"), f2, f1]))
+        # reporting data WITHOUT the categorical column the model was fitted with
+        out.append(("fitted", [f1, p("1weekb"), f1]))
+        return out
     if fam == "Hourly" and profile == "supp":
         q = ("predict", ix(fam, "H.rep_1weekb_occ"))
         out.append(("fitted", [p("1weekb"), q, p("1weekb"), ("to_json",), p("fullyear")]))
@@ -110,6 +117,8 @@ def random_history(rng, fam, profile, maxlen=9):
     preds = [i for i, nm in enumerate(names)]
     if fam == "Hourly" and profile == "ghi":
         preds = [i for i, nm in enumerate(names) if L.OBJ[nm]["ghi"]] * 3 + preds[:3]
+    if fam == "Hourly" and profile == "suppcat":
+        preds = [i for i, nm in enumerate(names) if nm.endswith("_flag")] * 3 + preds[:2]
     for _ in range(n):
         x = rng.random()
         if x < 0.5:
